@@ -778,6 +778,58 @@ class G:
         lines += ["stall", "end"]
         return lines
 
+    def cg_case(self, cid, kind):
+        """relation_with proper congruences (moduli 2..4, negative coefficients, non-zero residues) whose hyperplanes touch,
+        cross or miss a small bounded (or half-bounded) shape with rational end points; full and smaller arity"""
+        r = self.r
+        f = fam(kind)
+        n = r.choice([1, 2, 2, 3])
+        cs = []
+        for i in range(n):
+            a = r.choice([1, 1, 2, 3, 8])
+            lo = r.randint(-6, 9); hi = lo + r.randint(0, 8)
+            if r.random() < 0.9: cs.append(self.grid_con(n, [(i, a)], -lo))            # a*x >= lo
+            if r.random() < 0.85: cs.append(self.grid_con(n, [(i, -a)], hi))           # a*x <= hi
+        if f != "box" and n > 1 and r.random() < 0.5:
+            i, j = r.sample(range(n), 2)
+            cs.append(self.grid_con(n, [(i, 1), (j, -1 if f == "bds" else r.choice([1, -1]))], r.randint(-2, 3)))
+        if not cs: cs = [self.grid_con(n, [(0, 1)], 0)]
+        lines = ["case %s" % cid, "new 0 %s %d cons %d %s" % (kind, n, len(cs), " ".join(cs))]
+        if r.random() < 0.3: lines.append("op 0 %s" % r.choice(["closure", "reduction"]))
+        for _ in range(8):
+            k = n if r.random() < 0.7 else r.randint(1, n)
+            co = [0] * k
+            i = r.randrange(k); co[i] = r.choice([-3, -2, -1, 1, 2, 3])
+            if k > 1 and r.random() < 0.4:
+                j = r.choice([x for x in range(k) if x != i]); co[j] = r.choice([-2, -1, 1, 2])
+            m = r.choice([2, 2, 3, 3, 4, 1])
+            body = "%d %d %s" % (m, r.randint(-4, 4), " ".join(map(str, co)))
+            lines.append(("qry 0 relation_with_cg %s" % body) if k == n else ("qry 0 relation_with_cg_n %d %s" % (k, body)))
+        lines += ["stall", "end"]
+        return lines
+
+    def simplify_case(self, cid, kind):
+        """simplify_using_context_assign with empty / non-empty meet, receiver containing the context, equal operands"""
+        r = self.r
+        n = r.choice([1, 2, 2, 3])
+        def shape():
+            cs = []
+            for i in range(n):
+                lo = r.randint(-2, 3); hi = lo + r.randint(0, 3)
+                if r.random() < 0.8: cs.append(self.grid_con(n, [(i, 1)], -lo))
+                if r.random() < 0.8: cs.append(self.grid_con(n, [(i, -1)], hi))
+            if fam(kind) != "box" and n > 1 and r.random() < 0.5: cs.append(self.con(kind, n))
+            return [c for c in cs if not c.startswith(">") or kind in ("box_q", "box_d")] or [self.grid_con(n, [(0, 1)], 0)]
+        x = shape(); y = shape()
+        lines = ["case %s" % cid,
+                 "new 0 %s %d cons %d %s" % (kind, n, len(x), " ".join(x)),
+                 "new 1 %s %d cons %d %s" % (kind, n, len(y), " ".join(y)),
+                 "copy 2 0", "copy 3 1", "copy 4 0"]
+        if r.random() < 0.3: lines.append("op %d %s" % (r.choice([0, 1]), r.choice(["closure", "reduction", "obs_is_empty"])))
+        lines += ["op 0 simplify_using_context_assign 1", "op 3 simplify_using_context_assign 2",
+                  "op 4 intersection_assign 1", "op 4 simplify_using_context_assign 1", "stall", "end"]
+        return lines
+
     def twin_case(self, cid, kind):
         """equal sets with different matrices, and sets one notch apart"""
         r = self.r
@@ -815,7 +867,7 @@ def make_targeted(seed, count, kinds, start=0, which=None):
     transformers, lazy state after dimension changes, difference with straddled equalities)"""
     g = G(seed, 3)
     out = []
-    names = which or ["open_box", "eq_refine", "affine_general", "lazy_dim", "diff_eq", "swap", "ubie", "affine_general", "affine_div", "fold", "relarg"]
+    names = which or ["open_box", "eq_refine", "affine_general", "lazy_dim", "diff_eq", "swap", "ubie", "affine_general", "affine_div", "fold", "relarg", "cg", "simplify"]
     i = 0; made = 0
     while made < count:
         kind = kinds[i % len(kinds)]; nm = names[(i // len(kinds)) % len(names)]; i += 1
